@@ -363,7 +363,7 @@ func ruleReaderErrorReplies(c *chk.Ctx) {
 		arg ssa.Value
 	}
 	var pushes []push
-	ir.Calls(reader, func(ci ssa.CallInstruction) {
+	collect := func(ci ssa.CallInstruction) {
 		g := ci.Common().StaticCallee()
 		if g == nil || ir.RecvNamed(g) != c.M.Server || g.Signature.Params().Len() != 1 || g.Signature.Params().At(0).Type().String() != "error" {
 			return
@@ -371,20 +371,40 @@ func ruleReaderErrorReplies(c *chk.Ctx) {
 		if g == stopFunc(c, "server") {
 			return
 		}
+		// the push function is the one that builds a message with the literal id null
+		buildsNull := false
+		ir.Instrs(g, func(ins ssa.Instruction) {
+			if st, ok := ins.(*ssa.Store); ok && chk.IsField(st.Addr, c.M.JID) {
+				if cv, ok := st.Val.(*ssa.Convert); ok {
+					if s, isS := constString(cv.X); isS && s == "null" {
+						buildsNull = true
+					}
+				}
+			}
+		})
+		if !buildsNull {
+			return
+		}
 		pushes = append(pushes, push{ci, ci.Common().Args[1]})
-	})
+	}
+	for _, rf := range c.P.Ext(reader) {
+		ir.Calls(rf, collect)
+	}
 	var roles []string
 	for _, p := range pushes {
 		conds := ir.CondsAt(p.ci.Block())
 		role := ""
 		for _, cd := range conds {
 			if x, eq, ok := ir.NilCompare(cd.V); ok && eq != cd.Truth {
-				// derr != nil: x is the list parser's result
-				if call, ok := ir.NormCell(x).(*ssa.Call); ok && call.Call.StaticCallee() != nil && call.Call.StaticCallee().Signature.Recv() != nil {
-					role = "parse failure"
+				// derr != nil: x is (possibly via a helper's parameter) the list parser's result
+				isParse := func(v ssa.Value) bool {
+					call, ok := v.(*ssa.Call)
+					return ok && call.Call.StaticCallee() != nil && isListParser(c, call.Call.StaticCallee())
 				}
-				if _, isPhi := x.(*ssa.Phi); isPhi && role == "" {
-					role = "parse failure"
+				for _, src := range c.P.SourcesStop(x, isParse) {
+					if isParse(src) {
+						role = "parse failure"
+					}
 				}
 			}
 			if bo, ok := cd.V.(*ssa.BinOp); ok && bo.Op == token.EQL && cd.Truth {
